@@ -45,8 +45,11 @@ pub(super) fn translate_operator(
     args: Vec<rq::Expr>,
     ctx: &mut Context,
 ) -> Result<SourceExpr> {
-    let (func_def, binding_strength, window_frame, coalesce) =
-        find_operator_impl(&name, ctx.dialect_enum).unwrap();
+    let Some((func_def, binding_strength, window_frame, coalesce)) =
+        find_operator_impl(&name, ctx.dialect_enum)
+    else {
+        return Err(Error::new_simple(format!("unknown operator {name}")));
+    };
     let parent_binding_strength = binding_strength.unwrap_or(100);
 
     let params = func_def
@@ -79,7 +82,12 @@ pub(super) fn translate_operator(
                 let ident = ident.as_ref().unwrap();
 
                 // lookup args
-                let arg = args.get(ident.name.as_str()).unwrap().clone();
+                let Some(arg) = args.get(ident.name.as_str()).cloned() else {
+                    return Err(Error::new_simple(format!(
+                        "operator {name} is missing its argument `{}`",
+                        ident.name
+                    )));
+                };
 
                 // binding strength
                 let required_strength = format
